@@ -115,4 +115,18 @@ retained ids. -/
 theorem C03_roots_are_spec (s : Storage) :
     gcRoots s = s.topCalls.foldl (lruPut s.cap) s.lru ++ s.retained.map (·.1) := roots_are_spec s
 
+/-- **The LRU against the whole history.**  After any history, the LRU the next collection will use
+is exactly "the last `cap` distinct ids" of EVERYTHING ever pushed onto `top_level_calls` (the ghost
+field `pushes`: the user's calls and, finding F-C03, the dependencies re-verified under them). -/
+theorem C03_lru_invariant (fuel : Nat) (P : Prog) (cap : Nat) (hcap : 1 ≤ cap) (h : List Op) :
+    gcLru (after fuel cap P h) = lastDistinct cap (after fuel cap P h).pushes :=
+  (lru_invariant fuel P cap hcap h).1
+
+/-- a history across a collection; `pushes` holds more than the user's calls -/
+example : 1 ≤ 2 ∧
+    (after 8 2 progLru [.set 0 1, .set 1 0, .call 0 0, .set 1 5, .call 0 0, .gc, .call 1 1, .call 0 0]).pushes
+      = [⟨0, 0⟩, ⟨0, 0⟩, ⟨1, 0⟩, ⟨1, 1⟩, ⟨0, 0⟩] ∧
+    gcLru (after 8 2 progLru [.set 0 1, .set 1 0, .call 0 0, .set 1 5, .call 0 0, .gc, .call 1 1, .call 0 0])
+      = [⟨0, 0⟩, ⟨1, 1⟩] := by decide +kernel
+
 end IsoVerif.Props.C03
